@@ -44,6 +44,9 @@ def run(ck):
         for r in rows:
             r1.instance(f'{site}:{name}[{r[0]}]', ok=(r[1] == len(r[0]) + 1 and r[0] == r[0].lower()), wclass='table-length', what=f'{name}[] entry {r} has length != strlen + 1 (prefix or over-long comparison) or is not lower case')
     eng, paths = cfgpaths.summarise(tu, 'is_special_domain')
+    # comparisons hidden in helpers that could not be spliced in (they loop over a table) are outside what R9.2 / R9.3 can trace
+    hidden = sorted({c[1] for p in paths for c in p.calls() if c[1] in tu.functions and c[1] != 'is_special_domain'})
+    if hidden: raise AnalysisBroken(f'{site}: the label comparisons are made inside the helper(s) {hidden}, which the path rules cannot look into; re-confirm R9.2 / R9.3')
     # ---- R9.4 navigation
     r4 = ck.rule('R9.4', 'navigation: dots are counted from start, a root dot is discounted, whole labels are skipped while more than two remain (count >= 2), the example.<tld> test reads the label before the last dot', 3)
     allev = [e for p in paths for e in p.events]
@@ -68,9 +71,16 @@ def run(ck):
     r3 = ck.rule('R9.3', 'every NO verdict of a multi-label domain is based on the last label: it was compared with reserved[] or left through a length short-cut on the last label that excludes no reserved word', 50)
     r2 = ck.rule('R9.2', 'every YES verdict follows a whole-label strncasecmp match: last label vs reserved[] (length = entry length), or "example" (n = 8) on the label before the last dot followed by com/net/org on a 3-byte last label', 5)
     # last-label start pointers: P such that both len := (end - P) and len := (strchr(P,'.') - P) occur
+    # (the length variable is whichever local receives both forms; its name does not matter)
     ends = set(); mids = set()
+    by_var = {}
     for l, v in sets:
-        if l != 'len': continue
+        if not re.fullmatch(r'\w+', l): continue
+        if re.fullmatch(r'\(end - (.+)\)', v): by_var.setdefault(l, set()).add('end')
+        if re.fullmatch(r"\((strchr#\d+'*) - (.+)\)", v): by_var.setdefault(l, set()).add('mid')
+    lenvars = {l for l, k in by_var.items() if k == {'end', 'mid'}}
+    for l, v in sets:
+        if l not in lenvars: continue
         m = re.fullmatch(r'\(end - (.+)\)', v)
         if m: ends.add(m.group(1))
         m = re.fullmatch(r"\((strchr#\d+'*) - (.+)\)", v)
@@ -102,7 +112,7 @@ def run(ck):
             if re.fullmatch(r"\w+\[.+\]\.length", n) or (n.isdigit() and c[2][0].startswith('"') and int(n) == len(c[2][0]) - 2 + 1):
                 if copied: return None                                   # NUL-terminated copy, entry length incl. NUL
                 if x == 'start' and single: return None                  # the whole (single-label) string, NUL at its end
-                if any(e[0] == 'set' and e[1] == 'len' and e[2] == f'(end - {x})' for e in p.events): return None      # last label, ends at the terminator
+                if any(e[0] == 'set' and e[1] in lenvars and e[2] == f'(end - {x})' for e in p.events): return None      # last label, ends at the terminator
                 return f'compares {n} bytes in place at {x}, which is not known to be followed by the terminator'
             # n is the label's own length: an entry longer than the label matches by prefix unless the lengths are pinned
             A = [k for k in range(1, 65) if admits(len_atoms(p, x if not copied else x), k)] if (copied or True) else []
